@@ -642,6 +642,16 @@ def init(table, reload=False):
     # Add energy-dependent tables
     energy_dependent_init(table)
 
+    # The class-level default for missing neutron information is shared by all
+    # tables.  Give the atoms of this table which have no data their own copy
+    # so that changes to a private table do not show up in the other tables.
+    for element in table:
+        if 'neutron' not in element.__dict__:
+            element.neutron = Neutron()
+        for isotope in element:
+            if 'neutron' not in isotope.__dict__:
+                isotope.neutron = Neutron()
+
 
 # TODO: split incoherent into spin and isotope incoherence (eq 17-19 of Sears)
 # TODO: require parsed compound rather than including formula() keywords in api
